@@ -48,7 +48,7 @@ def write_cfg(work, name, switches=None, invariants=INVS, spec="SpecF", symmetry
     lines += ["INVARIANT %s" % i for i in invariants]
     if extra:
         lines.append(extra)
-    fn = "MC_LokyExecutor_gen_%s_%s.cfg" % (name, "_".join("%s%s" % (k[:2], v[0]) for k, v in sorted(sw.items())))
+    fn = "MC_LokyExecutor_gen_%s_%s_%s.cfg" % (name, "_".join("%s%s" % (k[:2], v[0]) for k, v in sorted(sw.items())), "".join(i[:2] for i in invariants)[:12])
     with open(os.path.join(work, fn), "w") as fh:
         fh.write("\n".join(lines) + "\n")
     return fn
@@ -79,6 +79,17 @@ def run_slices(ctx, prop):
             else:
                 raise runner.Machinery("LokyExecutor.tla slice %s: TLC reports %s (spec-level): last state %s" % (
                     n, res.violation, repr(res.trace[-1][1])[:1500] if res.trace else ""))
+    # non-vacuity of the exemption for open findings: their windows must be reachable in the slices that have a crash budget
+    if prop == "C02" or ctx.tier == "thorough":
+        for n in [x for x in names if SLICES[x][4] > 0][:2]:
+            cfg = write_cfg(ctx.work, n, invariants=["NoOpenWindow"], symmetry=True)
+            res = tlc.check(ctx.work, "MC_LokyExecutor", cfg.replace(".cfg", ".cfg"), workers=16, timeout=1200, coverage=False, heap="12g")
+            ctx.add_tlc(res, "LokyExecutor.tla slice %s: reachability of the open findings' windows (expected violation of NoOpenWindow)" % n)
+            if res.violation and res.violation[1] == "NoOpenWindow":
+                ctx.extra.setdefault("open_windows_reached", []).append(dict(slice=n, hit=sorted(str(x) for x in res.trace[-1][1]["hit"]),
+                                                                            steps=len(res.trace)))
+            else:
+                ctx.notes.append("no open window reachable in slice %s (the exemption `hit # {}` is vacuous there)" % n)
     return d17
 
 
